@@ -26,6 +26,7 @@ RULE = ('two 8x5 content tables (sheets T, U) over {int, float, negative, zero, 
 ASSUMPTIONS = ['vf/xlref folds = the clauses of the statement', 'date cells inside areas: serial or ignored, either; AVERAGE/MIN/MAX of no numbers: anything',
                'text / blank arguments of AND/OR and non-numeric scalar arguments of the folds are not generated',
                'sums compared at 1e-12 relative (order of floating-point addition is not fixed by the statement)']
+HOST_SETTINGS = {'shards': lambda shards: [0], 'env': {'VERIF_HOST_DECIMAL': '3'}}
 FLOORS = {'quick': {'evaluations': 6000, 'nontrivial': 3000, 'counters': {'split_laws_checked': 600}},
           'thorough': {'evaluations': 150000, 'nontrivial': 80000, 'counters': {'split_laws_checked': 15000}}}
 
